@@ -41,7 +41,7 @@ ASSUMPTIONS = [
     "ties within 1e-9 are judged with admissible sets (DESIGN D-c); at exact "
     ".5 both roundings of factor*n are admitted (D-d)",
 ]
-CASE_TIMEOUT = 1200
+CASE_TIMEOUT = 3600
 
 
 def bounds(tier):
@@ -50,7 +50,7 @@ def bounds(tier):
                 'core_iterations': [1, 2, 3], 'core_max_exec': 4000,
                 'pipe_shapes': (3, 4), 'perm_genes': 4}
     return {'core_shapes': (3, 5), 'core_bound': 3,
-            'core_iterations': [1, 2, 3], 'core_max_exec': 60000,
+            'core_iterations': [1, 2, 3], 'core_max_exec': 12000,
             'pipe_shapes': (4, 5), 'perm_genes': 5}
 
 
